@@ -6,7 +6,7 @@ CONSTANTS
   Cfgs <- CfgStoreJson
   MaxEmit = 1
   MaxSreq = 0
-  MaxSa = 1
+  MaxSa = 0
   Gates = FALSE
 VIEW MCView
 INVARIANTS ResumeExact IdsDense IdStable StoreBeforeDeliver CompleteAtEnd CompleteAtRest FinalObtainable RefusedOnlyOnConflict ResponseOnOwnExchange NestedRouting NoCrossSession RoutingEntryLifecycle LockDiscipline
